@@ -11,7 +11,7 @@ meta = json.load(open('/verif/manifest_meta.json'))
 TECH = {
  "sweep": "bounded exhaustive enumeration (every input / operation sequence up to the stated bound over a small alphabet) run on the real code in 16 worker processes, each case checked against a reference model or invariant; no sampling",
  "hist": "explicit-state model checking (stateright DFS/BFS with state matching) of a transition system whose states are live quil_rs::Program values and whose transitions call the real methods; oracle evaluated in every reachable state",
- "queue": "bounded exhaustive enumeration of programs through the real scheduler plus exhaustive exploration of the hooked DependencyQueue (all access sequences up to a bound); thorough tier adds a TLC-checked TLA+ model whose every state is replayed on the real queue",
+ "queue": "bounded exhaustive enumeration of programs through the real scheduler plus exhaustive exploration of the hooked DependencyQueue (all access sequences up to a bound); both tiers run TLC on a TLA+ model of the queue (tla/DependencyQueue.tla, five invariants) and replay every state of TLC's dumped state graph on the real queue",
  "child": "bounded exhaustive enumeration with process isolation: every case expanded on a 2 MiB-stack thread in a worker process, abnormal exits and hangs attributed to the case",
 }
 props = [json.loads(l) for l in open('/verif/properties.jsonl')]
